@@ -169,7 +169,7 @@ def run_property(pid, tier):
     wunits = []
     if tier == "thorough":
         wunits = [u for u in cfg.get("verus", []) if u in P.WITNESS]
-        if cfg.get("fallback_witness") in P.WITNESS:
+        if cfg.get("fallback_witness") in P.WITNESS and cfg["fallback_witness"] not in wunits:
             wunits.append(cfg["fallback_witness"])
     wunits += [u for u in sorted(undecided_units) if u in P.WITNESS and u not in wunits]
     # searches registered with "always": they check a clause no contract states (e.g. byte content behind a third-party encoder)
